@@ -25,7 +25,7 @@ EXPLANATION = (
     'is guarded; R4 recursion: after removing the re-entrancy-guarded functions and the reasoned structural '
     'recursions the typed call graph of the analysis must be acyclic. Exceptions of stdlib calls outside the table, '
     'stack depth and termination of data loops are NOT decided.'
-    ' Later additions: R1 a parameter of an API entry point that defaults to None is followed through the repository functions it is handed to (copies included) and must not reach an os.path operation; R4 Project.norm_package is interpreted on a file system in which every probe succeeds, for relative, unnamed and absolute file names, and must come to an end; a call made before a re-entrancy marker is set counts only if its callee can come back to the guarded function.')
+    ' Later additions: R1 a parameter of an API entry point that defaults to None is followed through the repository functions it is handed to (copies included) and must not reach an os.path operation; R4 Project.norm_package is interpreted on a file system in which every probe succeeds, for relative, unnamed and absolute file names, and must come to an end; a call made before a re-entrancy marker is set counts only if its callee can come back to the guarded function. R3 field coverage: every explicit visit_<Class> method of the extractor hands on every child field of that class (grammar of the running interpreter) below which a Name can stand - the names of an untouched field carry no .flow, which assist/location read without a guard.')
 TECHNIQUE = 'exception-escape analysis over the call graph + visitor summaries + protocol conformance on class families + cycle cut-set'
 
 ENTRIES = {'lint': 'supp/linter.py:lint', 'assist': 'supp/assistant.py:assist', 'location': 'supp/assistant.py:location'}
@@ -266,6 +266,7 @@ def run(repo, res):
 
     # ---- R3 protocol conformance at the frozen sites -------------------------------------------------------------
     check_protocols(repo, res, facts)
+    check_stamped_names(repo, res, facts)
 
     # ---- R4 recursion guard cut-set --------------------------------------------------------------------------------
     check_recursion(repo, res, facts, cg)
@@ -376,6 +377,93 @@ def check_protocols(repo, res, facts):
     from .. import resolve_model
     resolve_model.check_name_scope(repo, res, 'C08-R3')
 
+
+
+# node sorts below which a Name can stand
+NAME_BEARING_SORTS = ('expr', 'stmt', 'type_param', 'arguments', 'arg', 'keyword', 'withitem', 'comprehension', 'excepthandler',
+                      'match_case', 'pattern')
+
+
+def check_stamped_names(repo, res, facts):
+    """assist/location read `.flow` on the Name node under the cursor; the extractor stamps it when it visits the node.  A visit
+    method written for one node class takes over from generic_visit: every child field of that class (of the grammar of the running
+    interpreter) below which a Name can stand must be passed on - visited, handed to a helper, or generic-visited."""
+    from .. import grammar as G
+    reads = []
+    for fq in ('assist', 'location'):
+        fi = next((f for f in facts.funcs.values() if f.rel == 'supp/assistant.py' and f.qual == fq), None)
+        if fi is None:
+            raise AnalysisError('assistant.%s vanished' % fq)
+        scopes = [fi]
+        for c in ast.walk(fi.node):
+            if isinstance(c, ast.Call) and isinstance(c.func, ast.Name):
+                h = facts.module_funcs.get(fi.rel, {}).get(c.func.id)
+                if h is not None and h not in scopes:
+                    scopes.append(h)
+        for sc in scopes:
+            for n in ast.walk(sc.node):
+                if isinstance(n, ast.Attribute) and n.attr == 'flow' and isinstance(n.ctx, ast.Load) and isinstance(n.value, ast.Name) \
+                        and not (caught_by(n, 'AttributeError', sc.node) or is_getattr_guarded(n)):
+                    reads.append((fq, sc, n))
+    if not reads:
+        res.note('assist/location no longer read .flow of the node under the cursor without a guard: C08-R3 field coverage not armed')
+        return
+    vis = facts.classes.get('extract_visitor')
+    if vis is None:
+        raise AnalysisError('extract_visitor vanished')
+    nfields = 0
+    for mname in sorted(vis.methods):
+        if not mname.startswith('visit_') or mname[6:] not in G.NODE_FIELDS:
+            continue
+        mi = vis.lookup(mname)
+        if mi is None or len(mi.node.args.args) < 2:
+            continue
+        cls = mname[6:]
+
+        def mentions(fn, param, field, depth=0):
+            for n in ast.walk(fn):
+                if isinstance(n, ast.Attribute) and n.attr == field and isinstance(n.value, ast.Name) and n.value.id == param:
+                    return True
+                if isinstance(n, ast.Call):
+                    f = unparse(n.func)
+                    if f in ('getattr', 'hasattr') and len(n.args) >= 2 and isinstance(n.args[0], ast.Name) and n.args[0].id == param \
+                            and isinstance(n.args[1], ast.Constant) and n.args[1].value == field:
+                        return True
+                    if f.endswith('generic_visit') and any(isinstance(a, ast.Name) and a.id == param for a in n.args):
+                        return True
+                    if f in ('iter_child_nodes', 'ast.iter_child_nodes', 'walk', 'ast.walk', 'iter_fields', 'ast.iter_fields') \
+                            and any(isinstance(a, ast.Name) and a.id == param for a in n.args):
+                        return True
+                    # the node handed to another method of the visitor / a module-level helper: look there (two levels)
+                    if depth < 2:
+                        for i, a in enumerate(n.args):
+                            if isinstance(a, ast.Name) and a.id == param:
+                                callee = None
+                                if f.startswith('self.'):
+                                    h = vis.lookup(f[5:])
+                                    if h is not None and len(h.node.args.args) > i + 1:
+                                        callee, p2 = h.node, h.node.args.args[i + 1].arg
+                                elif isinstance(n.func, ast.Name):
+                                    h = facts.module_funcs.get(mi.rel, {}).get(f)
+                                    if h is not None and len(h.node.args.args) > i:
+                                        callee, p2 = h.node, h.node.args.args[i].arg
+                                if callee is not None and mentions(callee, p2, field, depth + 1):
+                                    return True
+            return False
+        param = mi.node.args.args[1].arg
+        for f in G.NODE_FIELDS[cls]:
+            if f.sort not in NAME_BEARING_SORTS:
+                continue
+            nfields += 1
+            ok = mentions(mi.node, param, f.name)
+            fq, sc, rd = reads[0]
+            res.check('C08-R3', '%s passes %s.%s on' % (mname, cls, f.name), ok, mi.rel, mi.node.lineno,
+                      '%s() replaces the generic traversal for %s nodes and never touches %s.%s (%s %s): the names below it are '
+                      'never visited and carry no .flow, which %s() reads without a guard (%s:%d) - a cursor there makes assist and '
+                      'location raise AttributeError' % (mname, cls, cls, f.name, f.sort + ('' if f.mult == '1' else f.mult), f.name,
+                                                         fq, sc.rel, rd.lineno),
+                      sample='%s: every child field of %s that can hold a name is passed on' % (mname, cls))
+    res.count('visit_method_child_fields', nfields, floor=60)
 
 # attributes assigned from outside the class before the object becomes reachable (reasoned)
 EXTERNALLY_SET = {
